@@ -88,6 +88,20 @@ Inv_C12 == (AtEnd /\ Strict(cfg) /\ cfg.buffered = {} /\ cfg.eofClose /\ out[Len
              \A c \in 0..Len(inp) :
                LET why == P12!Rel(S3, inp, out, ParseAll(S3, cfg, Take(inp, c)), c) IN
                why = "" \/ (PrintT(<<why, inp, c, out, ParseAll(S3, cfg, Take(inp, c))>>) /\ FALSE)
+\* C02: what the strict reader accepts (from a root element on), the writer accepts, and the re-written bytes read as the same tags
+W == INSTANCE Writer
+ItemOp(x) == [k |-> x.kind, id |-> x.id, ty |-> x.ty, val |-> x.val, width |-> 0, unknown |-> FALSE, kids |-> <<>>]
+RECURSIVE WriteItems(_, _, _)
+WriteItems(wr, its, i) == IF i > Len(its) THEN [res |-> "ok", w |-> wr]
+                          ELSE LET s == W!WriteCall(S3, wr, ItemOp(its[i])) IN IF s.res # "ok" THEN s ELSE WriteItems(s.w, its, i + 1)
+Inv_C02 == (AtEnd /\ Strict(cfg) /\ cfg.buffered = {} /\ cfg.eofClose /\ StartsAtRoot /\ out[Len(out) - 1].res = "none") =>
+   LET its == P12!Items(out)
+       s == WriteItems(W!InitWriter, its, 1)
+       fl == IF s.res = "ok" THEN W!WriteCall(S3, s.w, [k |-> "flush", id |-> <<>>, ty |-> "", val |-> <<>>, width |-> 0, unknown |-> FALSE, kids |-> <<>>]) ELSE s
+       back == IF fl.res = "ok" THEN ParseAll(S3, cfg, fl.w.dest) ELSE <<>>
+   IN \/ /\ fl.res = "ok" /\ P12!FirstNonItem(back).res = "none"
+         /\ Len(P12!Items(back)) = Len(its) /\ \A i \in 1..Len(its) : P12!KidSame(P12!Items(back)[i], its[i])
+      \/ (PrintT(<<"C02 fixpoint fails", inp, out, fl.res, back>>) /\ FALSE)
 \* every terminal behaviour, for replay into the real iterator (MC_Reader_Gen configurations)
 Kinds == [i \in 1..Len(out) |-> IF out[i].res = "item" THEN out[i].kind ELSE IF out[i].res = "err" THEN out[i].ekind ELSE "none"]
 Emit == AtEnd => PrintT(ToString(<<"REPLAY", inp, cfg.allowId, cfg.allowHier, cfg.allowSize, cfg.eofClose, cfg.buffered, Kinds>>))
